@@ -270,8 +270,14 @@ def gen_history(rng, mode, nslots):
         stop = False
         for c in new:
             cmds.append(c)
+            # a compiled program is one process for many histories: a history there ends with the first equality /
+            # concatenation / iteration over a value whose buffer was shrunk in place, because what follows a wrong
+            # result of these (a text shorter than the model's) can end the whole program with a Laufzeitfehler
+            if mode == "ddp" and c[0] in ("eq", "cat", "catsc", "catcs", "iter") and any(st.taint.get(x) for x in reads(c)):
+                stop = True
             if st.apply(c) is ERROR:
                 stop = True
+            if stop:
                 break
         if stop:
             break
@@ -656,7 +662,9 @@ def judge_ddp(h, cmds, obs, nslots, part):
         hist = TAINT if tainted else FRESH
         before = dict(st.vals)
         exp = st.apply(cmd)
-        assert exp is not ERROR
+        if exp is ERROR:     # only possible after the model adopted an observed (wrong) value
+            findings.append(({"part": part, "op": op, "history": TAINT, "symptom": "out of domain for the observed value"}, "history %d command %d" % (h, k)))
+            return findings, steps, tainted_steps
         where = "history %d command %d `%s` (operands: %s)" % (h, k, " ".join(str(x) if not isinstance(x, str) else repr(x) for x in cmd),
                                                                ", ".join("s%d=%s" % (s, _show(before.get(s, ""))) for s in reads(cmd)))
         got = obs.get((h, k))
